@@ -1,6 +1,9 @@
 package file
 
-import "context"
+import (
+	"context"
+	"sync"
+)
 
 var vctx = context.Background()
 
@@ -94,7 +97,36 @@ func HarnessC18f() {
 	// a name never written does not load
 	_, err := p.Load(vctx, name)
 	verifAssert("C18.file.missing-name-errors", err != nil)
-	switch verifChoose("scenario", 5) {
+	scen := verifChoose("scenario", 6)
+	if only := verifBoundOr("SCEN", -1); only >= 0 && scen != only {
+		verifAssume(false)
+	}
+	switch scen {
+	case 5: // several goroutines store the same node at the same time: all succeed, and it loads complete
+		workers := 2
+		if verifNative() {
+			// the native scheduler cannot be steered to the engine's interleaving: the overlap is made
+			// likely instead (a payload of several MiB, more writers); labels and verdicts are the same
+			b = append(b, make([]byte, 8<<20)...)
+			workers = 6
+		}
+		errs := make([]error, workers)
+		var wg sync.WaitGroup
+		wg.Add(workers)
+		verifSched(true)
+		for w := 0; w < workers; w++ {
+			w := w
+			go func() { defer wg.Done(); errs[w] = NewPersistForPath(dir).Store(vctx, name, b) }()
+		}
+		wg.Wait()
+		verifSched(false)
+		allOK := true
+		for _, e := range errs {
+			allOK = allOK && e == nil
+		}
+		verifAssert("C18.file.concurrent-store.err", allOK)
+		got, err := p.Load(vctx, name)
+		verifAssert("C18.file.concurrent-store.roundtrip", err == nil && bytesEq(got, b))
 	case 4: // the write is cut short by an I/O error: either the error is returned or the node is fully there
 		if len(b) == 0 {
 			verifAssume(false)
